@@ -13,7 +13,10 @@ use vf_ref::frame::RFrame;
 pub static FAULT_RUNS: AtomicU64 = AtomicU64::new(0);
 pub static FAULT_RUNS_PENDING: AtomicU64 = AtomicU64::new(0);
 
-pub const FAULTS: [&str; 11] = ["peer-close", "cut-a-to-b", "cut-b-to-a-err", "cut-b-to-a-eof", "cut-both", "half-dead", "invalid-frame", "invalid-frame-silent-peer", "drop-mux", "invalid-frame-stalled-sink", "source-error-stalled-sink"];
+pub const FAULTS: [&str; 13] = ["peer-close", "cut-a-to-b", "cut-b-to-a-err", "cut-b-to-a-eof", "cut-both", "half-dead", "invalid-frame", "invalid-frame-silent-peer", "drop-mux", "invalid-frame-stalled-sink", "source-error-stalled-sink", "keepalive-expiry-silent-peer", "keepalive-expiry-silent-peer-stalled-sink"];
+/// the fault kinds injected at every cut point of every base execution; the keepalive-expiry kinds need a keepalive timeout and
+/// virtual time passing after the peer has gone silent, which the directed family `keepalive-expiry` provides
+pub const ENUMERATED_FAULTS: usize = 11;
 
 /// events realising fault `f` at step `k`; second value: does side B learn about it (its obligations are checked too)
 pub fn fault_events(f: usize, k: u32) -> (Vec<RawEvent>, bool) {
@@ -31,6 +34,19 @@ pub fn fault_events(f: usize, k: u32) -> (Vec<RawEvent>, bool) {
         // the peer has stopped reading (A's sink is not writable any more, no error) when the invalid frame / the receive error arrives
         9 => (vec![at(What::Wedge { side: 0 }), at(What::Inject { from: 1, msg: RawMsg::Bytes(vec![0x7f]) }), at(What::Blackhole { side: 1 })], false),
         10 => (vec![at(What::Wedge { side: 0 }), at(What::CutSource { side: 0, err: true }), at(What::Blackhole { side: 1 })], false),
+        // the peer goes silent (nothing it sends arrives any more: no Pong, no Close, no error); the keepalive timeout has to end the
+        // connection - also when the endpoint's own sink has stopped taking output at the same moment (a black-holed TCP connection
+        // with a full send buffer). Virtual time passes in ticks fired whenever the system is quiescent.
+        11 | 12 => {
+            let mut v = vec![at(What::Blackhole { side: 1 })];
+            if f == 12 {
+                v.insert(0, at(What::Wedge { side: 0 }));
+            }
+            for _ in 0..6 {
+                v.push(RawEvent { when: Trigger::Quiescent, what: What::Tick });
+            }
+            (v, false)
+        }
         _ => unreachable!(),
     }
 }
@@ -296,7 +312,7 @@ pub fn run_c08(c: &C08Case) -> Outcome {
     let mut classes: Vec<&'static str> = vec![];
     let plan: Vec<(u32, usize)> = match c.only {
         Some(x) => vec![x],
-        None => (0..=n).flat_map(|k| (0..FAULTS.len()).map(move |f| (k, f))).collect(),
+        None => (0..=n).flat_map(|k| (0..ENUMERATED_FAULTS).map(move |f| (k, f))).collect(),
     };
     for (k, f) in plan {
         let (events, b_knows) = fault_events(f, k);
@@ -346,7 +362,7 @@ fn last_retry_case(i: u64) -> C08Case {
 
 pub fn c08(ctx: &Ctx, rep: &mut Report) {
     rep.rule = "base executions = workloads with streams mid-transfer (blocked writers/readers), pending opens, pending accept, pending get_datagram, pending/held bind requests and next_bind_request, options incl. max_flow_id_retries 1..3, under a generated schedule. \
-                For each base execution of n steps EVERY step k in 0..=n is a cut point and at each one EVERY fault kind (peer Close, A->B cut, B->A cut with error / with EOF, both, half-dead link with a silent peer, invalid frame, invalid frame + silent peer, local Multiplexor drop) is injected in a fresh deterministic re-run of the prefix (exhaustive in the cut-point x fault-kind dimension). \
+                For each base execution of n steps EVERY step k in 0..=n is a cut point and at each one EVERY fault kind (peer Close, A->B cut, B->A cut with error / with EOF, both, half-dead link with a silent peer, invalid frame, invalid frame + silent peer, local Multiplexor drop) is injected in a fresh deterministic re-run of the prefix; a directed family lets the keepalive expire: the peer goes silent at step k - with or without the endpoint's own sink stalling at the same moment -, virtual time passes and the keepalive timeout must end the connection (exhaustive in the cut-point x fault-kind dimension). \
                 Oracle after running to quiescence: connection task finished, no application future blocked, reads = consistent prefix then EOF, writes fail with BrokenPipe, multiplexor calls return Closed (bind: false/Closed), local drop: all queued frames transmitted in order before Close (also, on a real tokio current-thread runtime, with a backlog of 1..5000 datagrams held back by a back-pressured sink). \
                 evaluations = base executions; coverage.fault_injections = individual fault runs. Non-trivial = at least one injection hit while a stream read/write, an open request or a bind request was pending or still to come (it completed with an error/EOF after the fault; the always-pending accept/get_datagram/next_bind_request calls do not count). Distinct = distinct base case value."
         .into();
@@ -355,6 +371,37 @@ pub fn c08(ctx: &Ctx, rep: &mut Report) {
     let t = ctx.tier;
     ctx.prop(rep, "cut-points", t.pick(1_500, 30_000), 20, || c08_base().prop_map(|base| C08Case { base, only: None }), run_c08);
     ctx.enumerate(rep, "last-retry-at-teardown", 12 * 14, 10, last_retry_case, run_c08);
+    // the keepalive expires: the peer goes silent at step k (with or without the endpoint's own sink stalling at the same moment),
+    // virtual time passes, and the keepalive timeout (2 intervals) must end the connection and resolve everything that is pending
+    ctx.enumerate(
+        rep,
+        "keepalive-expiry",
+        30 * 2 * 2,
+        20,
+        |i| {
+            let k = (i % 30) as u32;
+            let fault = 11 + ((i / 30) % 2) as usize;
+            let second_stream = i / 60 == 1;
+            let w: Vec<WOp> = std::iter::repeat(WOp::Write(3)).take(6).chain([WOp::Shutdown]).collect();
+            let mut streams = vec![StreamSpec { side: 0, port: 1, pad: vec![], delay: 0, park: None, cancel: None, ends: [EndScript { w, r: vec![ROp::ToEof(8)] }, EndScript { w: vec![WOp::Write(2)], r: vec![ROp::Read(4), ROp::Park(1), ROp::ToEof(64)] }] }];
+            if second_stream {
+                streams.push(StreamSpec { side: 1, port: 2, pad: vec![], delay: 1, park: None, cancel: None, ends: [EndScript { w: vec![WOp::Write(1), WOp::Write(1), WOp::Write(1)], r: vec![] }, EndScript { w: vec![], r: vec![ROp::ToEof(8)] }] });
+            }
+            let base = Case {
+                opts: [OptsSpec { rwnd: 2, thr: 1, bind_buf: 2, ..OptsSpec::default() }, OptsSpec { rwnd: 2, thr: 1, bind_buf: 2, ..OptsSpec::default() }],
+                streams,
+                dgrams: vec![DgSpec { side: 0, flow_id: 3, host_len: 4, port: 9, data_len: 5, delay: 2 }],
+                dg_readers: [DgReader::Eager, DgReader::Eager],
+                binds: vec![BindSpec { side: 0, dgram: false, host: b"x".to_vec(), port: 3, delay: 3 }],
+                bind_policy: [BindPolicy { answers: vec![BindAnswer::Hold], batch: 1, order: vec![], enabled: true, ping_first: false }, BindPolicy { answers: vec![BindAnswer::Hold], batch: 1, order: vec![], enabled: true, ping_first: false }],
+                keepalive: [true, false],
+                keepalive_timeout_ticks: 2,
+                ..Case::default()
+            };
+            C08Case { base, only: Some((k, fault)) }
+        },
+        run_c08,
+    );
     // a buffering transport over a slow link: what the endpoint handed to its WebSocket is only transmitted once the close has
     // flushed it, and that takes longer than the keepalive timeout (virtual time passes while the close is pending); dropping the
     // Multiplexor on this healthy (if slow) transport must still get every queued frame to the peer before the Close
